@@ -186,7 +186,8 @@ def node_set(U, p, outside=True):
         nodes += [a, a + h / 97, (a + b) / 2, b - h / 97]
     nodes.append(ks[-1])
     if outside:
-        nodes += [ks[0] - F(1, 3), ks[-1] + F(1, 1000)]
+        # clearly outside, and outside by less than any tolerance the library uses elsewhere (1e-6, 1e-9)
+        nodes += [ks[0] - F(1, 2 * 10 ** 10), ks[-1] + F(1, 10 ** 10), ks[0] - F(1, 3), ks[-1] + F(1, 1000)]
     return nodes
 
 
